@@ -365,6 +365,28 @@ check("C11", "exploration",
            "complete, while duplicate-free inputs must not be rejected for duplication.",
       note="3 reports, <= 3 shards; routing targets are fixed by VERIF_SEED (ciphertext bytes).")
 
+check("C19", "model_checking",
+      "reshard_iter / reshard_try_stream on every shard of TestWorld<WithShards<S>> for S in {1,2,3,5}: every input size 0..7 (12) "
+      "x 3 placements of the records over the source shards x pickers {by record index, by value, reversed, stay, all-to-shard-j for "
+      "every j}; oracle = the vector the property text defines (records grouped by source shard 0..S-1, each group in its original "
+      "order), compared on every shard of all three helpers (alignment). Error arm: the input stream of each shard yields an Err at "
+      "every position, or more items than its size hint: that shard's call must fail. Transport arm: census of every shard-to-shard "
+      "stream (InspectContext::ShardMessage), every record slot of every such stream made undecodable in a separate run: the "
+      "receiving shard must fail, never return Ok. Schedule arm (config B): the same call on 2-3 shards under the preemption-"
+      "bounded DFS scheduler, every schedule inside the exploration window; the output must be the same vector on every schedule.",
+      [{"name": "grid", "config": "A", "test": "verif::c19::run", "timeout": {"quick": 900, "thorough": 3600},
+        "require": {"any": {"honest_runs": 200, "error_runs": 20, "transport_faults_failed_loudly": 10}}},
+       {"name": "prf", "config": "A", "test": "verif::c19p::run", "timeout": {"quick": 900, "thorough": 3600},
+        "require": {"any": {"prf_faults_failed_loudly": 10}}}],
+      assumptions=["records are plain field values (Fp32BitPrime) identical on the three helpers; alignment is checked as equality of the three helpers' vectors"],
+      exhaustive=True, engine="E5 domain + E3 fault + E2 sched",
+      technique="bounded exhaustive enumeration of (shard count x input size x placement x picker), of error positions and of "
+                "single-record corruptions of every shard-to-shard stream, executed on the real resharding code over the in-memory "
+                "sharded world; preemption-bounded exhaustive schedule exploration of the same call",
+      text="Every small input/placement/picker combination is resharded by the real code on every shard and compared with the "
+           "ordering the property defines; every error position and every corrupted shard-to-shard record must fail the call.",
+      note="S <= 5, n <= 7 (12 thorough).")
+
 check("C20", "exploration",
       "route table discovery on the real MPC-server and shard-server routers through IpaHttpServer::handle_req: every path of <= 5 "
       "segments over the segment alphabet harvested from the http_serde AXUM_PATH constants (plus a valid and a malformed query id "
